@@ -15,6 +15,351 @@ func init() {
 	addRules("C45", rulesC45Dedup)
 	addRules("C46", rulesC46SignalUnderLock)
 	addRules("C42", rulesC42TrimPerSeries)
+	addRules("C48", rulesC48Accumulator)
+	addRules("C44", rulesC44DynamicLabels)
+	addRules("C34", rulesC34FilterOrder)
+	addRules("C38", rulesC38BufferGrowth)
+	addRules("C10", rulesC10FreshLabelValues)
+}
+
+// C34 (third seed): the duplicate filter hides a block when another visible block covers its sources, the
+// older one winning a tie. Blocks already hidden by their deletion mark must be gone before that decision:
+// in every filter chain that holds both, the deletion-mark filter comes first.
+func rulesC34FilterOrder(c *Ctx) {
+	const rule = "marked-blocks-hidden-before-deduplication"
+	c.Rule(rule, "IgnoreDeletionMarkFilter precedes the duplicate filter in every metadata filter chain", 2)
+	p := c.Load("pkg/block", "cmd/thanos")
+	if p == nil {
+		return
+	}
+	n := 0
+	for _, fn := range p.AllFuncs(true) {
+		if relPkg(fn.Pkg.PkgPath) != "cmd/thanos" {
+			continue
+		}
+		info := fn.Info()
+		ast.Inspect(fn.Body(), func(nd ast.Node) bool {
+			cl, ok := nd.(*ast.CompositeLit)
+			if !ok {
+				return true
+			}
+			sl, ok := info.TypeOf(cl).Underlying().(*types.Slice)
+			if !ok || !strings.HasSuffix(shortType(sl.Elem()), "block.MetadataFilter") {
+				return true
+			}
+			mark, dedup := -1, -1
+			for i, el := range cl.Elts {
+				t := strings.TrimPrefix(shortType(info.TypeOf(el)), "*")
+				switch {
+				case strings.HasSuffix(t, "block.IgnoreDeletionMarkFilter"):
+					mark = i
+				case strings.HasSuffix(t, "block.DefaultDeduplicateFilter") || strings.HasSuffix(t, "block.DeduplicateFilter"):
+					dedup = i
+				}
+			}
+			if mark < 0 || dedup < 0 {
+				return true
+			}
+			// the property is about the long-running components; the bucket tools build one-shot views for
+			// their own purposes (the retention tool lists the duplicate filter first) — noted, not judged
+			if fn.Name != "runStore" && fn.Name != "runCompact" {
+				if mark > dedup {
+					c.Observe(rule, "cmd/thanos."+fn.Name+"#filters", p.Pos(cl.Pos()), "one-shot tool: the duplicate filter runs before the deletion-mark filter here, unlike in the store gateway and the compactor")
+				}
+				return true
+			}
+			n++
+			c.Check(mark < dedup, rule, "cmd/thanos."+fn.Name+"#filters", p.Pos(cl.Pos()), "dedup-before-deletion-marks",
+				"the duplicate filter runs before the deletion-mark filter: a marked block that is about to be hidden still hides its replacement (same sources, older ULID wins) and is then hidden itself — for the rest of the delete delay nobody serves those samples")
+			return true
+		})
+	}
+	if n == 0 {
+		c.Incomplete(rule, "cmd/thanos", "", "no filter chain with both filters found")
+	}
+}
+
+// C38 (third seed): a scratch buffer that is grown keeps what it already holds: copying into a slice that
+// was just made with length 0 copies nothing.
+func rulesC38BufferGrowth(c *Ctx) {
+	const rel, rule = "pkg/compact/downsample", "buffer-growth-keeps-contents"
+	c.Rule(rule, "no copy into a freshly made zero-length slice; buffers handed in by pointer are only appended to or truncated", 0)
+	p := c.Load("pkg/compact/downsample")
+	if p == nil {
+		return
+	}
+	for _, fn := range p.AllFuncs(true) {
+		if relPkg(fn.Pkg.PkgPath) != rel {
+			continue
+		}
+		for _, u := range append([]*Fn{fn}, p.Lits(fn)...) {
+			info := u.Info()
+			inspectNoLit(u.Body(), func(nd ast.Node) bool {
+				call, ok := nd.(*ast.CallExpr)
+				if !ok || len(call.Args) != 2 {
+					return true
+				}
+				id, ok := call.Fun.(*ast.Ident)
+				if !ok || id.Name != "copy" {
+					return true
+				}
+				if _, isB := info.Uses[id].(*types.Builtin); !isB {
+					return true
+				}
+				dst, ok := unparen(call.Args[0]).(*ast.Ident)
+				if !ok {
+					return true
+				}
+				def := singleDef(u, info, objOf(info, dst))
+				mk, ok := unparenOrNil(def).(*ast.CallExpr)
+				if !ok || len(mk.Args) < 2 {
+					return true
+				}
+				if f, ok := mk.Fun.(*ast.Ident); !ok || f.Name != "make" {
+					return true
+				}
+				if v, isC := constInt(info, mk.Args[1]); isC && v == 0 {
+					c.Bad(rule, rel+"."+u.Name+"#copy", p.Pos(call.Pos()), "copy-into-empty-slice",
+						"`"+stmtText(p, call)+"`: "+dst.Name+" was made with length 0, so nothing is copied and what the buffer held is lost when it replaces the old one (samples of the chunks already expanded disappear from the aggregate)")
+				}
+				return true
+			})
+		}
+	}
+	c.OK(rule, rel+"#copies", "", "no copy into a zero-length destination")
+}
+
+// C10 (third seed): postingGroup.mergeKeys compacts the add-key list in place, and for all-values matchers
+// that list IS what the index header's LabelValues returned. Every call must therefore get a slice of its own:
+// LabelValues builds its result in a local slice and never stores it in the reader.
+func rulesC10FreshLabelValues(c *Ctx) {
+	const rel, rule = "pkg/block/indexheader", "label-values-result-owned-by-caller"
+	c.Rule(rule, "BinaryReader.LabelValues returns a slice made in the call and keeps no reference to it", 1)
+	p := c.Load("pkg/block/indexheader")
+	if p == nil {
+		return
+	}
+	fn := p.Func(rel, "BinaryReader", "LabelValues")
+	if fn == nil {
+		c.Incomplete(rule, rel+".(*BinaryReader).LabelValues", "", "function not found")
+		return
+	}
+	info := fn.Info()
+	recv := recvObj(fn)
+	bad, nRet := "", 0
+	ast.Inspect(fn.Body(), func(nd ast.Node) bool {
+		switch v := nd.(type) {
+		case *ast.ReturnStmt:
+			if len(v.Results) != 2 || isNil(info, v.Results[0]) {
+				return true
+			}
+			nRet++
+			id, ok := unparen(v.Results[0]).(*ast.Ident)
+			if !ok {
+				bad = "the result " + canon(v.Results[0]) + " is not a local slice"
+				return true
+			}
+			// defined by make in this function (appends to itself are fine)
+			made := false
+			ast.Inspect(fn.Body(), func(x ast.Node) bool {
+				if as, ok := x.(*ast.AssignStmt); ok && len(as.Lhs) == 1 && len(as.Rhs) == 1 && objOf(info, as.Lhs[0]) == objOf(info, id) {
+					if call, ok := unparen(as.Rhs[0]).(*ast.CallExpr); ok {
+						if f, ok := call.Fun.(*ast.Ident); ok {
+							switch f.Name {
+							case "make":
+								made = true
+							case "append":
+								if len(call.Args) > 0 && objOf(info, call.Args[0]) != objOf(info, id) {
+									bad = "the result is appended to " + canon(call.Args[0])
+								}
+							}
+						}
+					} else {
+						bad = "the result " + id.Name + " is taken from " + canon(as.Rhs[0])
+					}
+				}
+				return true
+			})
+			if !made && bad == "" {
+				bad = "the result " + id.Name + " is not made in this call"
+			}
+		case *ast.AssignStmt:
+			// nothing reachable from the receiver may take the result
+			for i, l := range v.Lhs {
+				if i < len(v.Rhs) && rootIs(info, unwrapIndex(l), recv) && recv != nil {
+					if sl, ok := info.TypeOf(v.Rhs[i]).Underlying().(*types.Slice); ok && shortType(sl.Elem()) == "string" {
+						bad = "`" + stmtText(p, v) + "` keeps a []string in the reader"
+					}
+				}
+			}
+		}
+		return true
+	})
+	if nRet == 0 && bad == "" {
+		bad = "no result found"
+	}
+	c.Check(bad == "", rule, rel+".(*BinaryReader).LabelValues", p.Pos(fn.Decl.Pos()), "label-values-shared",
+		bad+": callers (postingGroup.mergeKeys) compact that list in place, so a slice shared between calls makes one request's matchers change what later requests see")
+}
+
+func unwrapIndex(e ast.Expr) ast.Expr {
+	for {
+		switch v := unparen(e).(type) {
+		case *ast.IndexExpr:
+			e = v.X
+		default:
+			return unparen(e)
+		}
+	}
+}
+
+// C48 (third seed): the intervals to delete from one series are accumulated in a list of their own.
+// tombstones.Intervals.Add edits its receiver in place when intervals touch, so the accumulator must never
+// be (an alias of) a request's own interval list — otherwise one series widens the request for all later ones.
+func rulesC48Accumulator(c *Ctx) {
+	const rel, rule = "pkg/compactv2", "per-series-intervals-do-not-alias-requests"
+	c.Rule(rule, "the per-series interval accumulator is only ever extended from its own value", 1)
+	p := c.Load("pkg/compactv2")
+	if p == nil {
+		return
+	}
+	fn := p.Func(rel, "delModifierSeriesSet", "Next")
+	if fn == nil {
+		c.Incomplete(rule, rel+".(*delModifierSeriesSet).Next", "", "function not found")
+		return
+	}
+	info := fn.Info()
+	isIntervals := func(t types.Type) bool { return strings.HasSuffix(shortType(t), "tombstones.Intervals") }
+	// accumulators: variables that receive the result of <x>.Add(...)
+	acc := map[types.Object]bool{}
+	ast.Inspect(fn.Body(), func(n ast.Node) bool {
+		as, ok := n.(*ast.AssignStmt)
+		if !ok || len(as.Lhs) != 1 || len(as.Rhs) != 1 {
+			return true
+		}
+		if call, ok := unparen(as.Rhs[0]).(*ast.CallExpr); ok {
+			if sel, ok := unparen(call.Fun).(*ast.SelectorExpr); ok && sel.Sel.Name == "Add" && isIntervals(info.TypeOf(sel.X)) {
+				if o := objOf(info, as.Lhs[0]); o != nil {
+					acc[o] = true
+				}
+			}
+		}
+		return true
+	})
+	if len(acc) == 0 {
+		c.Incomplete(rule, rel+".(*delModifierSeriesSet).Next", p.Pos(fn.Decl.Pos()), "no interval accumulator found")
+		return
+	}
+	bad, where := "", p.Pos(fn.Decl.Pos())
+	ast.Inspect(fn.Body(), func(n ast.Node) bool {
+		as, ok := n.(*ast.AssignStmt)
+		if !ok || len(as.Lhs) != len(as.Rhs) {
+			return true
+		}
+		for i, l := range as.Lhs {
+			o := objOf(info, l)
+			if o == nil || !acc[o] {
+				continue
+			}
+			r := unparen(as.Rhs[i])
+			okRHS := false
+			switch v := r.(type) {
+			case *ast.Ident:
+				okRHS = v.Name == "nil"
+			case *ast.CallExpr:
+				if sel, ok := unparen(v.Fun).(*ast.SelectorExpr); ok && sel.Sel.Name == "Add" && objOf(info, sel.X) == o {
+					okRHS = true // acc = acc.Add(x)
+				}
+				if id, ok := v.Fun.(*ast.Ident); ok && (id.Name == "make" || id.Name == "append") {
+					okRHS = id.Name == "make" || (len(v.Args) > 0 && (canon(v.Args[0]) == "nil" || strings.HasSuffix(canon(v.Args[0]), "(nil)") || objOf(info, v.Args[0]) == o))
+				}
+			case *ast.CompositeLit:
+				okRHS = true
+			}
+			if !okRHS {
+				bad, where = "`"+stmtText(p, as)+"` makes the accumulator "+o.Name()+" share storage with "+canon(r), p.Pos(as.Pos())
+			}
+		}
+		return true
+	})
+	c.Check(bad == "", rule, rel+".(*delModifierSeriesSet).Next", where, "accumulator-aliases-request",
+		bad+": a later "+"Add merges into that storage in place, so the request itself grows and every following series matched by it loses samples outside what was asked for")
+}
+
+// C44 (third seed): the destination label of label_replace / label_join is computed from other labels, so it
+// can never be a sharding label: every path through that case of QueryAnalyzer.Analyze records it as dynamic —
+// not only under an aggregation; binary operations match on labels too.
+func rulesC44DynamicLabels(c *Ctx) {
+	const rel, rule = "pkg/querysharding", "rewritten-labels-always-dynamic"
+	c.Rule(rule, "the label_replace / label_join case records the destination label on every path", 1)
+	p := c.Load("pkg/querysharding")
+	if p == nil {
+		return
+	}
+	fn := p.Func(rel, "QueryAnalyzer", "Analyze")
+	if fn == nil {
+		c.Incomplete(rule, rel+".(*QueryAnalyzer).Analyze", "", "function not found")
+		return
+	}
+	n := 0
+	for _, u := range append([]*Fn{fn}, p.Lits(fn)...) {
+		info := u.Info()
+		ast.Inspect(u.Body(), func(nd ast.Node) bool {
+			cc, ok := nd.(*ast.CaseClause)
+			if !ok {
+				return true
+			}
+			isCase := false
+			for _, e := range cc.List {
+				if t := canon(e); t == `"label_replace"` || t == `"label_join"` {
+					isCase = true
+				}
+			}
+			if !isCase {
+				return true
+			}
+			n++
+			paths, err := enumPaths(cc.Body)
+			bad := ""
+			if err != nil {
+				bad = err.Error()
+			}
+			for _, pth := range paths {
+				if pth.End == "return" {
+					continue
+				}
+				recorded := false
+				for _, a := range pth.Acts {
+					as, ok := a.(*ast.AssignStmt)
+					if !ok || len(as.Rhs) != 1 {
+						continue
+					}
+					if call, ok := unparen(as.Rhs[0]).(*ast.CallExpr); ok && len(call.Args) >= 2 {
+						if id, ok := call.Fun.(*ast.Ident); ok && id.Name == "append" && canon(call.Args[0]) == canon(as.Lhs[0]) && shortType(info.TypeOf(as.Lhs[0])) == "[]string" {
+							recorded = true
+						}
+					}
+				}
+				if !recorded {
+					var took []string
+					for _, cnd := range pth.Conds {
+						t := exprString(cnd.Atom)
+						if !cnd.Pol {
+							t = "!(" + t + ")"
+						}
+						took = append(took, t)
+					}
+					bad = "on the path [" + strings.Join(took, " ∧ ") + "] the destination label is not recorded as dynamic"
+				}
+			}
+			c.Check(bad == "", rule, rel+".(*QueryAnalyzer).Analyze#label-rewrite-case", p.Pos(cc.Pos()), "rewritten-label-not-excluded",
+				bad+": the query can then be sharded by a label the stored series do not carry in that form, and series that match after the rewrite land in different shards")
+			return true
+		})
+	}
+	if n == 0 {
+		c.Incomplete(rule, rel+".(*QueryAnalyzer).Analyze", p.Pos(fn.Decl.Pos()), "no case for label_replace / label_join found")
+	}
 }
 
 // C47: "unset" is decided by os.LookupEnv's second result, never by the value: a variable that is set to the
